@@ -9,6 +9,7 @@ from hypothesis import strategies as st
 
 from ..core import SubCheck, Violation, cut, quiet, require
 from ..rng_script import scripted
+from ..strategies import same_values
 from . import c13
 from . import geomcommon as gc
 from .c04 import BETA_MAX, BETA_MIN
@@ -337,8 +338,12 @@ class Optical(Stage):
         import dask
 
         beta, alt, E, lat, lon = arrays
+
+        def cloud_top(la, lo):  # a pure function of the event's position (tops between -1 and 15 km)
+            return -1.0 + 16.0 * ((la * 3.7 + lo * 1.3 + c) % 1.0)
+
         with dask.config.set(scheduler="synchronous"), quiet():
-            return list(obj(beta, alt, E, lat, lon, cloudf=None))
+            return list(obj(beta, alt, E, lat, lon, cloudf=None if c < 0.3 else cloud_top))
 
 
 class Radio(Stage):
@@ -503,6 +508,20 @@ def body_stage(case):
             want = base
             if rejected:
                 labels.add("after_rejected_call")
+        elif which == "churn":
+            # objects of other configurations are created, used and dropped (their memory is recycled), then a NEW
+            # object of this configuration is created: it must not inherit anything from the dead ones
+            oc = stage.other_case(case)
+            with cut(f"{stage.name}: short-lived objects"):
+                for i in range(8):
+                    tmp = stage.make(oc if i % 2 == 0 else stage.other_case(oc))
+                    stage.call(tmp, tuple(np.array(a[: max(1, min(n, 16))]) for a in stage.inputs(oc, n)), c)
+                    del tmp
+                newborn = stage.make(case)
+            r = _run(stage, newborn, arrays, c)
+            want = base
+            del newborn
+            labels.add("after_object_churn")
         elif which == "alt":
             with cut(f"{stage.name}(other optional argument)"):
                 stage.call_alt(obj, tuple(np.array(a) for a in arrays), c)
@@ -519,7 +538,9 @@ def body_stage(case):
             want = base
             labels.add("second_object_interleaved")
         for j2, (g, b) in enumerate(zip(r, want)):
-            require(_bytes([g]) == _bytes([b]), f"{stage.name}: call #{step + 2} ('{which}') on the same object differs from a fresh object's result in output #{j2} (history {case['history'][: step + 1]})")
+            # other memory representations reach other numpy loops (last-place differences in log/exp): values, not bits
+            same = same_values(g, b) if which in ("strided", "bigendian", "fortran2d", "transposed2d") else _bytes([g]) == _bytes([b])
+            require(same, f"{stage.name}: call #{step + 2} ('{which}') on the same object differs from a fresh object's result in output #{j2} (history {case['history'][: step + 1]})")
         last_out = r
     if len(case["history"]) >= 2:
         labels.add("history>=2")
@@ -659,7 +680,7 @@ def stage_case(names, sizes):
             "c": st.floats(0.01, 0.99),
             "perm": st.lists(st.floats(0.0, 1.0), min_size=16, max_size=16),
             "split": st.sampled_from(["0", "1", "n-1", "n", "0.5", "0.37", "0.9", "0.41"]),
-            "history": st.lists(st.sampled_from(["same", "perm", "half", "refill", "refill", "scribble", "alt", "other", "other", "strided", "reject", "reject", "bigendian", "fortran2d", "transposed2d"]), min_size=1, max_size=6),
+            "history": st.lists(st.sampled_from(["same", "perm", "half", "refill", "refill", "scribble", "alt", "other", "other", "strided", "reject", "reject", "bigendian", "fortran2d", "transposed2d", "churn"]), min_size=1, max_size=6),
         }
     )
 
